@@ -159,6 +159,23 @@ class Holder(object):
         return 99
 
 
+class Inst(object):
+    """instances of a class whose method `f` is the generated function, installed for the duration of one case (C11 'attached' methods):
+    distinguishable by every keymap (ident/size in repr, pickle, hash, ==), and FALSY when size == 0 like any empty container-like object"""
+    def __init__(self, ident, size):
+        self.ident, self.size = ident, size
+    def __len__(self):
+        return self.size
+    def __repr__(self):
+        return 'Inst(%d, %d)' % (self.ident, self.size)
+    def __eq__(self, other):
+        return isinstance(other, Inst) and (self.ident, self.size) == (other.ident, other.size)
+    def __ne__(self, other):
+        return not self.__eq__(other)
+    def __hash__(self):
+        return hash(('Inst', self.ident, self.size))
+
+
 def make_plain(sig, body=None, name='f'):
     """exec a function of this signature; body(named, varargs, varkw) -> result"""
     defaults = dict((n, V.build(s)) for n, s in list(sig.get('opt', [])) + list(sig.get('kwopt', [])))
